@@ -462,6 +462,47 @@ def close_(rec, rel, kind, desc, A, B, ctx):
                     return
 
 
+def turning_counts_of_a_narrow_type(M, rec, rng, reps):
+    """Scripted in every run: turn rates given as turning COUNTS of a narrow NumPy integer type whose total at the node does
+    not fit the type (uint8 180:120, int16 21000:14000 ...): the next states are those of the halved counts (which do fit) and
+    of the same numbers given as floats."""
+    NE, CE = drive.engines(M)
+    for it in range(reps):
+        dt, lo, hi = ((np.uint8, 130, 250), (np.int8, 70, 120), (np.uint16, 33000, 60000), (np.int16, 17000, 30000))[it % 4]
+        k_ = rng.choice((2, 3))
+        counts = [2 * rng.randint(lo // 2, hi // 2) for _ in range(k_)]
+
+        def run(rates):
+            mk = lambda nm, N_, beta: M.Link(N_, 2, 1.0, 180.0, 33.5, 102.0, 1.867, beta, nm)  # noqa: E731
+            J = M.Node(name="J")
+            up = mk("U", 2, 1.0)
+            net = M.Network().add_path((M.Node(name="S"), up, J), origin=M.MainstreamOrigin(name="O"))
+            outs_ = []
+            for j, b_ in enumerate(rates):
+                l_ = mk(f"B{j}", 1, b_)
+                outs_.append(l_)
+                net.add_path((J, l_, M.Node(name=f"X{j}")), destination=M.Destination(name=f"D{j}"))
+            ic = {up: {"rho": np.array([30.0, 42.0]), "v": np.array([80.0, 66.0])}}
+            for j, l_ in enumerate(outs_):
+                ic[l_] = {"rho": np.array([20.0 + 3 * j]), "v": np.array([75.0 - 4 * j])}
+            ic[next(iter(net.origins))] = {"w": np.array([5.0]), "d": np.array([2500.0]), "v_ctrl": np.array([300.0])}
+            net.step(init_conditions=ic, engine=NE(), T=10 / 3600, tau=18 / 3600, eta=60.0, kappa=40.0)
+            return [float(np.asarray(l_.next_states["rho"]).ravel()[0]) for l_ in outs_]
+
+        try:
+            with np.errstate(all="ignore"):
+                a = run([dt(c_) for c_ in counts] if it % 8 < 4 else [np.array([c_], dtype=dt) for c_ in counts])
+                b = run([dt(c_ // 2) for c_ in counts])
+                c = run([float(c_) for c_ in counts])
+        except Exception as e:
+            rec.violation(f"{PROP}:turning counts of a narrow integer type:numpy: stepping raised {type(e).__name__}", {"counts": counts, "dtype": dt.__name__, "exception": repr(e)[:300]})
+            continue
+        rec.count("relation_turning_counts_of_a_narrow_type")
+        if not all(abs(x - y) <= 1e-9 * (1 + abs(y)) for x, y in zip(a, c)) or not all(abs(x - y) <= 1e-9 * (1 + abs(y)) for x, y in zip(b, c)):
+            rec.violation(f"{PROP}:turn-rate scaling:numpy: turning counts of a narrow integer type whose total does not fit the type give other shares than the same numbers as floats / halved",
+                          {"counts": counts, "dtype": dt.__name__, "with_counts": a, "with_halved_counts": b, "with_floats": c})
+
+
 def state_dependent_turn_rates(M, rec, rng, g):
     """A user link kind whose turn rate is a property of its current state (route choice reacting to traffic):
     the share of the node's inflow a leaving link receives is its CURRENT turn rate over the sum of the current
@@ -528,6 +569,7 @@ def run(M, rec, tier, seed, k, n):
             symbolic_turn_rates(M, rec, rng, g, ("SX", "MX")[(it // 4) % 2])
     networks_sharing_nodes(M, rec, rng, 40 if tier == "quick" else 400)
     W.complex_step_turn_rates(M, rec, rng, PROP, 30 if tier == "quick" else 300, "shares")
+    turning_counts_of_a_narrow_type(M, rec, rng, 16 if tier == "quick" else 160)
 
 
 def finish(M, rec, write=True):
